@@ -246,8 +246,7 @@ impl RecordPrinter for JsonPrinter {
         row: &Record,
         _display_config: &DisplayConfig,
     ) -> io::Result<()> {
-        serde_json::to_writer(out, row).expect("failed to format");
-        Ok(())
+        serde_json::to_writer(out, row).map_err(io::Error::from)
     }
 }
 
